@@ -1,8 +1,13 @@
 (* Decidable form of property C07, applied to what the implementation did in a run in which some
    producers were stopped for ever inside write: the sequential epilogue brackets every unblock()
    with dumps of the whole buffer, follows it with reads, and lets a survivor write again. *)
-Require Import V.Base.MachineInt V.Generated.GenConsts V.Model.LogBase V.Model.Ring V.Model.RingThreads
-               V.Spec.Fifo V.Oracle.C06Oracle.
+Require Import V.Base.MachineInt.
+Require Import V.Generated.GenConsts.
+Require Import V.Model.LogBase.
+Require Import V.Model.Ring.
+Require Import V.Model.RingThreads.
+Require Import V.Spec.Fifo.
+Require Import V.Oracle.C06Oracle.
 Open Scope Z_scope.
 
 Definition word_eqb (a b : Z * Z) : bool := (fst a =? fst b) && (snd a =? snd b).
